@@ -2,6 +2,7 @@
 package mon
 
 import (
+	"sync/atomic"
 	"unsafe"
 	"bytes"
 	"errors"
@@ -275,6 +276,7 @@ func Quiet() {
 // poison text fastlog leaves in a buffer it has already given back to its pool ("invalid buffer freed via ..."): such a
 // write means that a line was written twice or used after Write/ToString, i.e. two users now share one pooled buffer.
 type LogMon struct {
+	counting atomic.Bool
 	mu    sync.Mutex
 	Lines int64
 	bad   []string
@@ -283,10 +285,29 @@ type LogMon struct {
 // Log is the process wide monitor installed by Quiet.
 var Log = &LogMon{}
 
+// Counting makes the monitor count the lines it judges (C20). It is off by default: a counter or a lock touched by every log
+// line would order all goroutines that log and hide races between them from the race detector (C09).
+func (m *LogMon) Counting(on bool) { m.counting.Store(on) }
+
 func (m *LogMon) Write(p []byte) (int, error) {
+	kind := logLineKind(p)
+	if kind == "" && !m.counting.Load() {
+		return len(p), nil // the common case touches nothing shared
+	}
 	m.mu.Lock()
 	defer m.mu.Unlock()
 	m.Lines++
+	if kind != "" && len(m.bad) < 16 {
+		q := p
+		if len(q) > 200 {
+			q = q[:200]
+		}
+		m.bad = append(m.bad, kind+"|"+string(q))
+	}
+	return len(p), nil
+}
+
+func logLineKind(p []byte) string {
 	kind := ""
 	switch {
 	case bytes.Contains(p, []byte("invalid buffer freed via")):
@@ -300,14 +321,7 @@ func (m *LogMon) Write(p []byte) (int, error) {
 			}
 		}
 	}
-	if kind != "" && len(m.bad) < 16 {
-		q := p
-		if len(q) > 200 {
-			q = q[:200]
-		}
-		m.bad = append(m.bad, kind+"|"+string(q))
-	}
-	return len(p), nil
+	return kind
 }
 
 // Take returns and clears the malformed writes seen so far ("kind|first 200 bytes").
